@@ -131,9 +131,10 @@ JudgeCall(e) ==
       foreign == {a \in AccNames \ v.match : e.acc[a].ok}
       wf == IsMeta(e.bytes) IN
   [ok |-> IF ~v.judged THEN TRUE
-          ELSE v.dom /\ e.panic = "" /\ v.bytesOk /\ wf /\ v.accOk /\ foreign = {},
+          \* e.stable: every accessor answered the same when its output variables held other values before the call
+          ELSE v.dom /\ e.panic = "" /\ v.bytesOk /\ wf /\ v.accOk /\ foreign = {} /\ e.stable,
    info |-> [id |-> e.id, ev |-> "call", ctor |-> e.ctor, name |-> e.name, genbug |-> ~v.dom, panic |-> e.panic,
-             bytesOk |-> v.bytesOk, wellFormed |-> wf, accOk |-> v.accOk, foreign |-> foreign,
+             bytesOk |-> v.bytesOk, wellFormed |-> wf, accOk |-> v.accOk, foreign |-> foreign, stable |-> e.stable,
              datalen |-> Len(e.data), nbytes |-> Len(e.bytes),
              retlen |-> IF e.ctor \in TextKinds \cup {"seqdata"} THEN Len(e.acc[e.ctor].s) ELSE -1, expectHead |-> v.expect, gotHead |-> Hd(e.bytes, 12)]]
 
